@@ -300,6 +300,10 @@ impl SodiumCtx {
     }
 
     pub fn update_node(&self, node: &Node) {
+        self.update_node2(node, false);
+    }
+
+    pub fn update_node2(&self, node: &Node, as_dependency: bool) {
         let bail = node.data.visited.swap(true, Ordering::Release);
         if bail {
             return;
@@ -324,7 +328,7 @@ impl SodiumCtx {
                 for dependency in &dependencies {
                     let visited = dependency.data().visited.load(Ordering::SeqCst);
                     if !visited {
-                        _self.update_node(dependency.node());
+                        _self.update_node2(dependency.node(), true);
                     }
                 }
             });
@@ -347,7 +351,11 @@ impl SodiumCtx {
         }
         // if self changed then update dependents
         let changed = node.data.changed.load(Ordering::SeqCst);
-        if changed {
+        if changed && as_dependency {
+            // reached from one of its dependents, whose other dependencies may not have
+            // settled yet: leave the dependents to the outer loop of end_of_transaction
+            self.add_dependents_to_changed_nodes(node);
+        } else if changed {
             let dependents = box_clone_vec_is_weak_node(&node.data().dependents.read());
             {
                 let _self = &self;
